@@ -595,7 +595,30 @@ pub fn check_c08(plan: &Plan, out: &RunOutput) -> Option<Violation> {
                 .find(|r| r.kind == RespKind::Unit(u.index))
         });
         let fully = resp.map(|r| r.intact && r.fully_read_seq.is_some()).unwrap_or(false);
-        if fully {
+        // "completely received" binds only if it happened before the request resolved and
+        // nothing earlier in the byte stream was corrupted (after injected garbage no later
+        // reply can be delivered, however much of it an implementation that reads ahead pulls in)
+        let binding = fully
+            && resp
+                .map(|r| {
+                    r.fully_read_seq.unwrap_or(u64::MAX) < op.return_seq.unwrap_or(u64::MAX)
+                        && out.responses.iter().filter(|x| x.start < r.start).all(|x| x.intact)
+                })
+                .unwrap_or(false);
+        if fully && !binding {
+            let exp = expected_result(op, unit.unwrap());
+            if op.result != exp && !matches!(op.result, OpResult::ErrClosed | OpResult::ErrProtocol(_)) {
+                return Some(Violation::new(
+                    "C08",
+                    "R2_wrong_data_after_fault",
+                    format!(
+                        "{} returned {} which is neither its reply nor an error",
+                        describe_op(op),
+                        op.result.summary()
+                    ),
+                ));
+            }
+        } else if fully {
             let exp = expected_result(op, unit.unwrap());
             if op.result != exp {
                 let clause = if op.result.is_err()
@@ -727,7 +750,10 @@ pub fn check_c08(plan: &Plan, out: &RunOutput) -> Option<Violation> {
             ));
         }
     }
-    // R6: an unclean end the client observed is visible
+    // R6: an unclean end the client observed is surfaced. Everything below is stated in terms of
+    // what was on the wire and what came out of the API — not of the moment the simulated
+    // transport first reported the failure, because an implementation that reads ahead (a reader
+    // task, a buffering layer) meets the failure earlier than it acts on it.
     if let Some(end) = &out.end {
         let garbage_seen = out.garbage_at.map(|g| out.s2c_read > g).unwrap_or(false);
         // Garbage that was read into the receive buffer is only *parsed* by the next receive();
@@ -739,27 +765,20 @@ pub fn check_c08(plan: &Plan, out: &RunOutput) -> Option<Violation> {
             _ => client_saw_end,
         };
         if !end.clean && observed {
-            // Garbage is parsed at some unknown moment between the read that carried it and
-            // quiescence, so for garbage the window of "observation" is that whole interval and
-            // every judgement below takes the reading most favourable to the client.
             let is_garbage = end.kind == "garbage";
-            let garbage_read_seq = out
-                .log
-                .iter()
-                .find(|e| matches!(&e.ev, Ev::ClientRead { end, .. } if Some(*end) > out.garbage_at))
-                .map(|e| e.seq)
-                .unwrap_or(0);
-            let observed_seq = if is_garbage {
-                garbage_read_seq
+            let transport_failure =
+                matches!(end.kind.as_str(), "cut" | "read_err" | "reset" | "write_err");
+            // the earliest moment the client can have known (lower bound only)
+            let t0 = if is_garbage {
+                out.log
+                    .iter()
+                    .find(|e| matches!(&e.ev, Ev::ClientRead { end, .. } if Some(*end) > out.garbage_at))
+                    .map(|e| e.seq)
+                    .unwrap_or(0)
             } else if end.kind == "idle_denied" {
                 denied_read_seq.unwrap_or(0)
             } else {
                 out.client_observed_end.unwrap_or(0)
-            };
-            let observed_latest = if is_garbage {
-                out.quiescence_seq
-            } else {
-                observed_seq
             };
             let protocol_err = ops
                 .iter()
@@ -768,132 +787,110 @@ pub fn check_c08(plan: &Plan, out: &RunOutput) -> Option<Violation> {
                 .events
                 .iter()
                 .any(|(_, _, e)| matches!(e, EventRec::Closed(_)));
-            let receiver_alive = out
-                .receiver_dropped_seq
-                .map(|s| s > observed_latest)
-                .unwrap_or(true);
-            // pending = first polled before the failure was observed and unanswered at that point;
-            // in flight = additionally, its request line had been written to the transport
-            let pending = |o: &OpRecord| {
-                o.invoke_seq < observed_latest
-                    && o.return_seq.map(|r| r > observed_seq).unwrap_or(true)
-                    && o.result != OpResult::Cancelled
-            };
-            let line_written_before = |id: u64| {
-                let needle = format!("req {}", id);
-                out.log.iter().any(|e| {
-                    e.seq < observed_seq && matches!(&e.ev, Ev::ClientLine(t) if *t == needle)
-                })
-            };
-            let any_pending_unanswered = ops.iter().any(|o| pending(o) && !reply_complete_early(out, o));
-            let in_flight = !is_garbage
-                && ops
-                    .iter()
-                    .filter(|o| pending(o) && !reply_complete_early(out, o))
-                    .any(|o| o.ids.first().map(|i| line_written_before(*i)).unwrap_or(false));
+            // a closing event can only be demanded if the receiver was there to take it whenever
+            // the client got round to sending it
+            let receiver_throughout = out.receiver_dropped_seq.is_none();
             // A caller that cancelled its request may have been the one "whose request was in
             // flight": the loop hands the failure to its (dead) responder, and the statement asks
-            // for nothing more. Exempt runs in which such a request was still unanswered when
-            // the failure was observed.
-            let cancelled_in_flight = ops.iter().any(|o| {
-                o.result == OpResult::Cancelled
-                    && o.invoke_seq < observed_latest
-                    && !unit_for(out, o)
-                        .and_then(|u| {
-                            out.responses
-                                .iter()
-                                .find(|r| r.kind == RespKind::Unit(u.index))
-                        })
-                        .filter(|r| r.intact)
-                        .and_then(|r| r.fully_read_seq)
-                        .map(|s| s < observed_seq)
-                        .unwrap_or(false)
-            });
-            if cancelled_in_flight {
+            // for nothing more. Exempt runs in which a cancelled request never got its reply.
+            let cancelled_unanswered = ops
+                .iter()
+                .any(|o| o.result == OpResult::Cancelled && !reply_complete_early(out, o));
+            if cancelled_unanswered {
                 return r7(out);
             }
-            let visible = protocol_err || (closed_event && receiver_alive);
-            if !visible && (receiver_alive || in_flight) {
+            let line_of = |e: &crate::session::net::LogEntry| -> Option<String> {
+                match &e.ev {
+                    Ev::ClientLine(t) | Ev::WriteAttempt(t) => Some(t.clone()),
+                    _ => None,
+                }
+            };
+            let art_involved = ops.iter().any(|o| o.kind == "album_art" && !reply_complete_early(out, o));
+            // R6b (A): a request whose own request line was written — or was being written when
+            // the write failed — and whose reply never completely arrived was in flight when the
+            // connection failed, whenever the implementation learnt of the failure: its caller is
+            // told the failure itself, not a clean "connection closed".
+            if transport_failure && !art_involved {
+                for o in ops.iter().filter(|o| o.kind != "album_art") {
+                    let Some(id) = o.ids.first() else { continue };
+                    let own = format!("req {}", id);
+                    let on_the_wire = out.log.iter().any(|e| {
+                        e.seq > o.invoke_seq && line_of(e).map(|t| t == own).unwrap_or(false)
+                    });
+                    if on_the_wire
+                        && !reply_complete_early(out, o)
+                        && !matches!(o.result, OpResult::ErrProtocol(_))
+                    {
+                        return Some(
+                            Violation::new(
+                                "C08",
+                                "R6_caller_in_flight_not_told_the_failure",
+                                format!(
+                                    "the connection ended uncleanly ({}) while the request of {} was in flight (its request line had been written, or was being written when the write failed, and its reply never arrived completely), but that caller got {} instead of the protocol error",
+                                    end.kind,
+                                    describe_op(o),
+                                    o.result.summary()
+                                ),
+                            )
+                            .tag(format!("end={}", end.kind)),
+                        );
+                    }
+                }
+            }
+            // R6 proper: surfaced to some caller, or as a closing event
+            // (a client whose last handle is dropped may stop on that account, with a failure it
+            // has met but not yet acted on — only a client that was still wanted owes the report)
+            let visible = protocol_err || closed_event;
+            if !visible && receiver_throughout && handles_at_quiescence {
                 return Some(
                     Violation::new(
                         "C08",
                         "R6_failure_not_surfaced",
                         format!(
-                            "the connection ended uncleanly ({}) and the client observed it ({}), but no request returned a protocol error and no closing event was delivered (request in flight: {}, receiver alive: {})",
+                            "the connection ended uncleanly ({}) and the client observed it ({}), the event receiver was alive throughout, but no request returned a protocol error and no closing event was delivered",
                             end.kind,
                             out.observed_kind.clone().unwrap_or_else(|| "garbage read".into()),
-                            in_flight,
-                            receiver_alive
                         ),
                     )
                     .tag(format!("end={}", end.kind)),
                 );
             }
-            // R6b: the caller whose request was in flight is told the failure itself, not a clean
-            // "connection closed". Decided from what was on the wire, not from the order in which
-            // this implementation happens to serve its queue:
-            //  (A) a pending request whose own request line was written — or was being written
-            //      when the write failed — was in flight: that caller must get the failure;
-            //  (B) if instead the last thing written (or attempted) on behalf of the pending
-            //      requests was `noidle`, the loop had begun to serve one of them: at least one
-            //      pending caller must get the failure.
-            // Not applied to garbage (parsed at an unknown later time), to a refused idle, to
-            // cancelled requests, or when an album_art call (several requests) is pending.
-            if matches!(end.kind.as_str(), "cut" | "read_err" | "reset" | "write_err") {
-                let q: Vec<&&OpRecord> = ops
+            // R6b (B): if the last line written (or attempted) before anything surfaced was
+            // `noidle`, the loop had cancelled idle in order to serve a pending request when the
+            // connection failed: at least one pending caller is told the failure itself.
+            if transport_failure && !art_involved {
+                let surfaced = ops
                     .iter()
-                    .filter(|o| {
-                        o.invoke_seq < observed_seq
-                            && o.return_seq.map(|r| r > observed_seq).unwrap_or(true)
-                            && !reply_complete_early(out, o)
-                    })
-                    .collect();
-                let art_pending = q.iter().any(|o| o.kind == "album_art");
-                let line_of = |e: &crate::session::net::LogEntry| -> Option<String> {
-                    match &e.ev {
-                        Ev::ClientLine(t) | Ev::WriteAttempt(t) => Some(t.clone()),
-                        _ => None,
-                    }
-                };
-                if !q.is_empty() && !art_pending {
-                    // (A)
-                    for o in &q {
-                        let Some(id) = o.ids.first() else { continue };
-                        let own = format!("req {}", id);
-                        let in_flight = out.log.iter().any(|e| {
-                            e.seq > o.invoke_seq
-                                && e.seq < observed_seq
-                                && line_of(e).map(|t| t == own).unwrap_or(false)
-                        });
-                        if in_flight
-                            && o.result != OpResult::Cancelled
-                            && !matches!(o.result, OpResult::ErrProtocol(_))
-                        {
-                            return Some(
-                                Violation::new(
-                                    "C08",
-                                    "R6_caller_in_flight_not_told_the_failure",
-                                    format!(
-                                        "the connection ended uncleanly ({}) while the request of {} was in flight (its request line had been written, or was being written when the write failed), but that caller got {} instead of the protocol error",
-                                        end.kind,
-                                        describe_op(o),
-                                        o.result.summary()
-                                    ),
-                                )
-                                .tag(format!("end={}", end.kind)),
-                            );
-                        }
-                    }
-                    // (B)
+                    .filter(|o| o.result.is_err() && !matches!(o.result, OpResult::ErrResponse { .. }))
+                    .filter_map(|o| o.return_seq)
+                    .filter(|r| *r > t0)
+                    .chain(
+                        out.events
+                            .iter()
+                            .filter(|(_, _, e)| matches!(e, EventRec::Closed(_)))
+                            .map(|(s, _, _)| *s),
+                    )
+                    .chain(out.endpoint_dropped.into_iter())
+                    .min();
+                if let Some(t_surface) = surfaced {
+                    let q: Vec<&&OpRecord> = ops
+                        .iter()
+                        .filter(|o| {
+                            o.kind != "album_art"
+                                && o.invoke_seq < t_surface
+                                && o.return_seq.map(|r| r >= t_surface).unwrap_or(true)
+                                && !reply_complete_early(out, o)
+                        })
+                        .collect();
                     let first_invoke = q.iter().map(|o| o.invoke_seq).min().unwrap_or(0);
                     let last_line = out
                         .log
                         .iter()
-                        .filter(|e| e.seq > first_invoke && e.seq < observed_seq)
+                        .filter(|e| e.seq > first_invoke && e.seq < t_surface)
                         .filter_map(|e| line_of(e))
                         .last();
-                    if last_line.as_deref() == Some("noidle")
-                        && q.iter().all(|o| o.result != OpResult::Cancelled)
+                    if !q.is_empty()
+                        && last_line.as_deref() == Some("noidle")
                         && !q.iter().any(|o| matches!(o.result, OpResult::ErrProtocol(_)))
                     {
                         return Some(
@@ -912,19 +909,6 @@ pub fn check_c08(plan: &Plan, out: &RunOutput) -> Option<Violation> {
                         );
                     }
                 }
-            }
-            if !any_pending_unanswered && receiver_alive && !closed_event {
-                return Some(
-                    Violation::new(
-                        "C08",
-                        "R6_failure_without_request_not_reported_as_event",
-                        format!(
-                            "the connection ended uncleanly ({}) with no request pending, but no closing event was delivered",
-                            end.kind
-                        ),
-                    )
-                    .tag(format!("end={}", end.kind)),
-                );
             }
         }
     }
